@@ -134,6 +134,27 @@ __CPROVER_decreases(i + 1)
               dict(name="approx_flag_dropped", where="body:solve", rx=r"approximate = true;", repl=";", thorough_only=True),
               dict(name="xstate_leaked", where="body:solve", rx=r"freeState\(xstate\);", repl=";", thorough_only=True)]))
 
+# ---------------------------------------------------------------- PRM::constructApproximateSolution (bounded)
+PRMF = "src/ompl/geometric/planners/prm/src/PRM.cpp"
+PRMA_RULES = [
+    (r"std::lock_guard<std::mutex> _\(graphMutex_\);", "", 0), (r"base::Goal \*g = pdef_->getGoal\(\)\.get\(\);", "", 0),
+    (r"base::Cost closestVal\(opt_->infiniteCost\(\)\);", "double closestVal = INFC;", 0),
+    (r"foreach \(Vertex start, starts\)\s*\{", "for (unsigned si_ = 0; si_ < NS_; ++si_) { Vertex start = STARTS[si_];", 0),
+    (r"foreach \(Vertex goal, goals\)\s*\{", "for (unsigned gi_ = 0; gi_ < NG_; ++gi_) { Vertex goal = GOALS[gi_];", 0),
+    (r"base::Cost heuristicCost\(costHeuristic\(start, goal\)\);", "double heuristicCost = costHeuristic(start, goal);", 0),
+    (r"opt_->isCostBetterThan\(", "better(", 0), (r"g->isStartGoalPairValid\(stateProperty_\[goal\], stateProperty_\[start\]\)", "isStartGoalPairValid(goal, start)", 0),
+    (r"base::PathPtr p;", "", 0), (r"boost::vector_property_map<[\w:]+> \w+\(boost::num_vertices\(g_\)\);", "", 0),
+    (r"try\s*\{.*?\}\s*catch \(AStarFoundGoal &\)\s*\{\s*\}", "ASTAR(start, goal);", 0, __import__("re").S),
+    (r"for \(auto vp = vertices\(g_\); vp\.first != vp\.second; vp\.first\+\+\)", "for (Vertex v_ = 0; v_ != NV_; v_++)", 0), (r"\*vp\.first", "v_", 0),
+    (r"ompl::base::Cost dist_to_goal\(costHeuristic\(v_, goal\)\);", "double dist_to_goal = costHeuristic(v_, goal);", 0), (r"opt_->isFinite\(rank\[v_\]\)", "RANK_FINITE(v_)", 0),
+    (r"auto p\(std::make_shared<PathGeometric>\(si_\)\);\s*for \(Vertex pos = closeToGoal; prev\[pos\] != pos; pos = prev\[pos\]\)\s*p->append\(stateProperty_\[pos\]\);\s*p->append\(stateProperty_\[start\]\);\s*p->reverse\(\);\s*solution = p;", "SOLUTION_TO(closeToGoal, start);", 0),
+    (r"return opt_->infiniteCost\(\);", "return INFC;", 0),
+]
+UNITS.append(dict(name="c01_prm_constructApproximateSolution", template="C01/prm_approx.c", mode="plain", entry="h_prm_approx", flags=["--bounds-check", "--pointer-check", "--signed-overflow-check", "--conversion-check"], unwind=5,
+                  level="bounded", bound="<= 2 start, <= 2 goal, <= 3 roadmap vertices", backend="cadical", timeout=900, functions=["ompl::geometric::PRM::constructApproximateSolution"],
+                  sources=[dict(name="approx", file=PRMF, sig=r"ompl::base::Cost ompl::geometric::PRM::constructApproximateSolution\(const std::vector<Vertex> &starts,\s*const std::vector<Vertex> &goals,\s*base::PathPtr &solution\)", rules=PRMA_RULES, loops={"allow_uncontracted": True})],
+                  canaries=[dict(name="flag_not_rearmed", where="body:approx", rx=r"closestVal = heuristicCost;\s*approxPathJustStart = true;", repl="closestVal = heuristicCost;")]))
+
 ASSUMPTIONS = ["start states are addressed by index; bounds/validity of the start state at the ghost index are arbitrary fixed values", "exceptions (missing problem definition) are outside the modelled paths"]
 TRUSTED = ["extraction rewrite tables of units/C01.py, units/C17.py", "stubs in units/C01/inputs.c, units/C17/pathgeom.c", "CBMC 6.11 DFCC + minisat"]
 NOT_COVERED = ["THE SOLVE LOOPS OF THE ~45 GEOMETRIC AND MULTILEVEL PLANNERS: that every tree/roadmap edge is admitted only after checkMotion, that the reported path starts at a start state and ends in the goal region, status/flag consistency per planner, non-solution statuses adding no path (planner bodies are not under contract)",
